@@ -3,8 +3,8 @@
 package checks
 
 import (
-	"errors"
 	"encoding/json"
+	"errors"
 	"fmt"
 	"os"
 	"os/exec"
@@ -362,7 +362,10 @@ func collAdapters() []collAdapter {
 				m.Len,
 				func() string {
 					var ks []string
-					m.Each(func(k catalog.InteractionID, _ catalog.Interaction) error { ks = append(ks, k.String()); return eachStop(len(ks)) })
+					m.Each(func(k catalog.InteractionID, _ catalog.Interaction) error {
+						ks = append(ks, k.String())
+						return eachStop(len(ks))
+					})
 					return strings.Join(ks, ",")
 				},
 				func() string { return jsonKeyOrder(m.MarshalJSON()) }
